@@ -56,6 +56,7 @@ class Feat:
         self.if_weight = 3
         self.n_bases = 4
         self.guards = 2
+        self.badjump = True
         self.__dict__.update(kw)
 
 
@@ -350,6 +351,8 @@ class ProgGen:
             kinds += ["copy"]
         if f.memory:
             kinds += ["mstore8"]
+        if f.badjump:
+            kinds += ["badjump"]
         k = ch.choose(kinds, lbl + ".sk")
         d = f.max_expr_depth
         if k == "mstore":
@@ -458,6 +461,10 @@ class ProgGen:
             if ch.chance(0.5, lbl + ".else"):
                 self.block(bdepth - 1, lbl + "E", allow_term=True)
             a.label(end)
+        elif k == "badjump":
+            # a conditional jump to a place that is not a JUMPDEST: the taken side halts exceptionally, the fall-through goes on
+            self.cond(lbl + "c")
+            a.push(ch.choose([0xFFFF, 0xFFF1], lbl + ".bt")).op("JUMPI")
         elif k == "loop":
             self.loop(bdepth, lbl)
         elif k == "copy":
